@@ -436,6 +436,11 @@ def c07(tier):
     open(spec_roots, "a").write("rnbqkbnr/pppppppp/8/8/8/8/PPPPPPPP/RNBQKBNR w KQkq - 0 1\nr3k2r/pppq1ppp/2npbn2/2b1p3/2B1P3/2NPBN2/PPPQ1PPP/R3K2R w KQkq - 0 1\n")
     shards += trace(ck, exe, "games", "s", {"roots": spec_roots, "games": 1200 if full else 128, "maxply": 70, "shards": 16,
                                             "mv-pct": 0, "keys": 0, "repr": 0, "policy": 7})
+    # the same from roots where a home rook is captured (by a piece that is neither king nor rook) while its right is held, the capturing
+    # side having no rights of its own: its king and rooks then take part in the shuffle
+    rk = write_roots_named(ck, ["roots_rookcap.fen"], "rookcap.fen")
+    shards += trace(ck, exe, "games", "k", {"roots": rk, "games": 600 if full else 96, "maxply": 40, "shards": 8,
+                                            "mv-pct": 0, "keys": 0, "repr": 0, "policy": 7})
     viols, cnt = validate(ck, shards)
     need(cnt, ["pred_cmp", "n_rep", "n_rep3", "n_r50", "n_insuff", "n_check", "n_mate", "n_stale"], "C07 traces")
     take(ck, "C07", viols, others)
